@@ -325,10 +325,15 @@ class MergePart(extlib.MergePart):
     """extlib.MergePart (generator, runner, Coq rendering) with C03's own oracle: all clauses judged against generator
     truth, collected, and signatures that re-derive the mechanism of the open findings."""
     NAME = 'merge'
+    RULE = ('a deterministic systematic block (extlib.systematic_merge_cases: merge axis kind x input dimensionality x every '
+            'classification of the key x value pattern, small extents, present in every seed), then ' + extlib.MergePart.RULE +
+            '; plus cases with an affine argument different from the inputs\', trailing-singleton inputs merged along that '
+            'axis and 6-7 inputs')
 
     @staticmethod
     def gen_cases(rng, tier):
-        return extlib.MergePart.gen_cases(rng, tier) + _extra_cases(rng, tier, 'merge')
+        # systematic block first (deterministic, the same in every seed), then the random streams
+        return extlib.systematic_merge_cases() + extlib.MergePart.gen_cases(rng, tier) + _extra_cases(rng, tier, 'merge')
 
     @staticmethod
     def oracle(case, obs):
@@ -371,7 +376,8 @@ class TwiceMergePart:
     CORR_SHOW = extlib.MergePart.CORR_SHOW
     SHARD = 60
     IMPL_TIMEOUT = 20
-    RULE = ('merge cases as in the merge part, restricted to the slice / time / vector axes and biased to keys that change '
+    RULE = ('the systematic block of extlib.systematic_merge_cases (slice / time / vector axes, patterns alldiff and repvol) '
+            'and merge cases as in the merge part, restricted to the slice / time / vector axes and biased to keys that change '
             'class during the merge, plus cases with an affine argument different from the inputs\'; the same '
             'DcmMetaExtension objects are passed to from_sequence twice and the SECOND result is judged (values, value '
             'counts, result affine / slice dim against the case) and compared with the model')
@@ -380,6 +386,12 @@ class TwiceMergePart:
     def gen_cases(rng, tier):
         n = 160 if tier == 'quick' else 1500
         out = []
+        for c in extlib.systematic_merge_cases():       # systematic block (every seed): the axis merges that grow lists
+            _, axis, _, _, pat = c['kind'].split('/')
+            if not axis.startswith('nonslice') and pat in ('alldiff', 'repvol'):
+                c['kind'] = 'twice/' + c['kind']
+                out.append(c)
+        n += len(out)
         while len(out) < n:
             c = extlib.gen_merge_case(rng, tier, dim=rng.choice([0, 1, 2, 2, 3, 3, 4, 4]))
             if rng.random() < 0.15:
